@@ -1,1 +1,15 @@
 import ThriftVerif.Props.C11
+#print axioms Props.C11.schema_ok
+#print axioms Props.C11.codec_roundtrip
+#print axioms Props.C11.request_roundtrip
+#print axioms Props.C11.response_roundtrip
+#print axioms Props.C11.write_ends_with_stop
+#print axioms Props.C11.compress_decompress
+#print axioms Props.C11.trailer_detected
+#print axioms Props.C11.trailer_absent
+#print axioms Props.C11.trailer_ignored_by_reader
+#print axioms Props.C11.version_gate
+#print axioms Props.C11.params_order
+#print axioms Props.C11.fault_fails
+#print axioms Props.C11.answer_honoured
+#print axioms Props.C11.warnings_shown_on_failure
